@@ -288,7 +288,8 @@ PROPS['C04'] = {
 PROPS['C05'] = {
     'title': 'Planar area and ring orientation are exact up to rounding',
     'level': 'proof',
-    'verus': ['c05_exact'],
+    'verus': ['c05_exact', 'c05_ring'],
+    'twins': {'C05.V.twice_signed_ring_area': r'^c05_k_(ring_area|polygon_area)'},
     'kani_extra': ['--no-memory-safety-checks', '--no-overflow-checks', '--no-assertion-reach-checks'],
     'kani': [
         ('geo', 'c05.rs', r'^c05_k_ring_area_open_', 'complete', 'quick'),
@@ -296,11 +297,12 @@ PROPS['C05'] = {
         ('geo', 'c05.rs', r'^c05_k_ring_area_closed_3$', 'complete', 'thorough'),
         ('geo', 'c05.rs', r'^c05_k_(orient_default_cw_cw|orient_reversed_ccw_cw|winding_tri_1_dup0|winding_tri_2_dup2|winding_tri_1_dupclose|winding_tri_2_dupclose|make_winding_0)$', 'bounded', 'thorough'),
     ],
-    'trusted': ['ring area / winding order: scalar i16 on the lattice |c| <= 5 (products fit: exact), triangles incl. a repeated vertex anywhere; complete for that lattice',
+    'trusted': ['Verus unit c05_ring: exact ring scalar (no overflow, no rounding); twins of LineString::lines() and Line::map_coords (contract proved in unit c19_map); the inline closure of the ring walk annotated in place (X10)',
+                'ring area / winding order: scalar i16 on the lattice |c| <= 5 (products fit: exact), triangles incl. a repeated vertex anywhere; complete for that lattice',
                 'Polygon / Rect / Triangle / MultiPolygon areas and orient: concrete literal shapes (8x8 shell, two holes) at offsets 0 and +-1e8, every listed combination of ring windings; robust::orient2d stubbed by its assumed contract in the orient harnesses'],
     'undecided_clauses': [
         'rounding bound for non-lattice coordinates ("within a few units of rounding")',
-        'GeometryCollection areas (recursive Geometry delegation: CBMC timeout); rings with more than 3 distinct vertices for winding_order / ring area',
+        'GeometryCollection areas (recursive Geometry delegation: CBMC timeout); winding_order for rings with more than 3 distinct vertices; Polygon / Triangle / Multi* areas beyond the bounded harnesses (iterator folds with closures: outside Verus)',
     ],
 }
 
